@@ -170,9 +170,30 @@ func assignments(tier string) []fedfix.Assignment {
 	return out
 }
 
+// renamed gives the same distribution under other service names (the outcome must not depend on how services are
+// named: names with the separator the federation fields use, a name that is a prefix of another).
+func renamed(a fedfix.Assignment, names map[string]string) fedfix.Assignment {
+	b := fedfix.Assignment{}
+	for f, ss := range a {
+		var parts []string
+		for _, s := range strings.Split(ss, "+") {
+			parts = append(parts, names[s])
+		}
+		b[f] = strings.Join(parts, "+")
+	}
+	return b
+}
+
 func runSeq(rp *explore.Report, tier string) {
 	datasets := fedfix.DataSets()
 	as := assignments(tier)
+	for i, naming := range []map[string]string{{"s1": "core_api", "s2": "user_data", "s3": "x"}, {"s1": "a", "s2": "a_b", "s3": "a_b_c"}, {"s1": "zeta", "s2": "alpha", "s3": "m"}} {
+		for _, j := range []int{1, 5, 11, 64, 333, 1029} {
+			if j < len(as) {
+				as = append(as, renamed(as[(j+i)%len(as)], naming))
+			}
+		}
+	}
 	// monolith answers
 	type key struct{ d, q int }
 	want := map[key]interface{}{}
